@@ -7,6 +7,7 @@ import (
 	"go/types"
 	"os"
 	"sort"
+	"strconv"
 	"strings"
 	"time"
 
@@ -250,18 +251,25 @@ type Exec struct {
 	LocOf   map[string]string
 	// FuncVars: package variables that hold one function from their initialiser on; a load yields that function
 	FuncVars map[*ssa.Global]*ssa.Function
+	// ErrVars: sentinel errors (package variables set once to errors.New of a constant text): variable -> text
+	ErrVars map[*ssa.Global]string
 	// FuncField: the one function ever stored into field i of the structure ptrT points to, or nil
 	FuncField func(ptrT types.Type, i int) *ssa.Function
-	seen      map[string]bool
-	live      map[*ssa.Function]map[*ssa.BasicBlock]map[ssa.Value]bool
-	terms     []Terminal
-	termKey   map[string]bool
-	work      []*State
-	tables    map[*ssa.Global]map[string]Value
-	arrays    map[*ssa.Global]map[int64]Value
-	globals   map[string]*ssa.Global
-	arrayLen  map[string]int64 // arrays a whole-array slice was taken of (slice literals): location -> length
-	stepLists map[string]bool  // those of them whose elements are functions (lists of steps to run in order)
+	// NilVars: function variables of the tree that nothing ever assigns
+	NilVars map[*ssa.Global]bool
+	// SoleMethod: the method an interface method call reaches when the interface has a single implementation, or nil
+	SoleMethod func(c *ssa.CallCommon) *ssa.Function
+	seen       map[string]bool
+	live       map[*ssa.Function]map[*ssa.BasicBlock]map[ssa.Value]bool
+	terms      []Terminal
+	termKey    map[string]bool
+	work       []*State
+	tables     map[*ssa.Global]map[string]Value
+	arrays     map[*ssa.Global]map[int64]Value
+	globals    map[string]*ssa.Global
+	arrayLen   map[string]int64 // arrays a whole-array slice was taken of (slice literals): location -> length
+	stepLists  map[string]bool  // those of them whose elements are functions (lists of steps to run in order)
+	initLits   map[*ssa.Global][]ssa.Instruction
 }
 
 func New(prog *ssa.Program, inScope func(*ssa.Function) bool) *Exec {
@@ -1244,6 +1252,41 @@ func (x *Exec) branch(s *State, cond Value) (tS, fS *State) {
 	cur, ok := s.PC[at.Name]
 	if !ok {
 		cur = full
+		// a negative literal against a value known not to be negative (a position, a length, a loop counter): only one
+		// ordering is possible (pos == -1 after the search loop found the name is not a path)
+		if t, isT := cond.(*Term); isT && len(t.Args) >= 2 && len(at.Domain) == 3 && strings.HasPrefix(at.Name, "ord(") {
+			for i := 0; i < 2; i++ {
+				k, isC := t.Args[i].(Const)
+				if !isC || k.V == nil || k.V.Kind() != constant.Int || constant.Sign(k.V) >= 0 || !x.nonNeg(s, t.Args[1-i]) {
+					continue
+				}
+				only := "<" // the literal is the first operand of the atom
+				if t.Args[i].Key() > t.Args[1-i].Key() {
+					only = ">"
+				}
+				for di, d := range at.Domain {
+					if d == only {
+						cur = 1 << uint(di)
+					}
+				}
+			}
+		}
+	}
+	if !ok && cur == full && len(at.Domain) == 3 && strings.HasPrefix(at.Name, "ord(") {
+		// what earlier comparisons of the same value with other integer literals leave possible (len(l) == 1 settles len(l) == 0)
+		if t, isT := cond.(*Term); isT && len(t.Args) >= 2 {
+			for i := 0; i < 2; i++ {
+				k, isC := t.Args[i].(Const)
+				if _, otherC := t.Args[1-i].(Const); !isC || otherC || k.V == nil || k.V.Kind() != constant.Int {
+					continue
+				}
+				// only for values that are integers for certain: lengths and counters (between two literals a
+				// floating-point amount has room that an integer has not)
+				if kv, exact := constant.Int64Val(k.V); exact && x.nonNeg(s, t.Args[1-i]) {
+					cur = x.againstLiterals(s, t.Args[1-i], kv, t.Args[i].Key() < t.Args[1-i].Key())
+				}
+			}
+		}
 	}
 	var tm uint16
 	for i, d := range at.Domain {
@@ -1705,6 +1748,9 @@ func (x *Exec) nonNeg(s *State, v Value) bool {
 		}
 		return true
 	case *Term:
+		if t.Op == "len" || t.Op == "cap" {
+			return true
+		}
 		if t.Op != "+" || len(t.Args) != 2 {
 			return false
 		}
@@ -2236,6 +2282,21 @@ func (x *Exec) step(s *State, f *Frame, in ssa.Instruction) bool {
 				f.Env[in] = x.val(s, f, x.FuncVars[g])
 				break
 			}
+			if g, ok := in.X.(*ssa.Global); ok && x.NilVars[g] {
+				// a function variable nothing ever sets (a diagnostics hook): nil for good
+				f.Env[in] = Const{Nil: true}
+				break
+			}
+			if g, ok := in.X.(*ssa.Global); ok {
+				if text, isErr := x.ErrVars[g]; isErr {
+					// a sentinel error: the value errors.New gave it once and for all
+					f.Env[in] = NewTerm("call:errors.New", Const{V: constant.MakeString(text)})
+					break
+				}
+			}
+			if g, ok := in.X.(*ssa.Global); ok {
+				x.materialise(s, g)
+			}
 			if fa, ok := in.X.(*ssa.FieldAddr); ok && x.FuncField != nil {
 				if fn := x.FuncField(fa.X.Type(), fa.Field); fn != nil {
 					f.Env[in] = x.val(s, f, fn) // a field only one function is ever stored into
@@ -2419,7 +2480,7 @@ func (x *Exec) step(s *State, f *Frame, in ssa.Instruction) bool {
 						x.arrayLen = map[string]int64{}
 					}
 					x.arrayLen[p.Loc] = at.Len() // arr[:] of a literal: its cells are arr's cells
-					if _, isFn := at.Elem().Underlying().(*types.Signature); isFn {
+					if isStepType(at.Elem()) {
 						if x.stepLists == nil {
 							x.stepLists = map[string]bool{}
 						}
@@ -2680,6 +2741,12 @@ func (x *Exec) call(s *State, f *Frame, in *ssa.Call) bool {
 	if c.IsInvoke() {
 		recv := x.val(s, f, c.Value)
 		callee, fnv, a2 := x.resolveInvoke(recv, c.Method, args)
+		if callee == nil && x.SoleMethod != nil {
+			// an interface of the tree that only one type is ever converted to
+			if cal := x.SoleMethod(c); cal != nil {
+				callee, a2 = cal, append([]Value{NewTerm("dyn", recv)}, args...)
+			}
+		}
 		if callee == nil && x.Hooks.Devirt != nil {
 			// an interface value of unknown dynamic type: the rule may know that only one implementation can be meant
 			if cal := x.Hooks.Devirt(f.Fn, in); cal != nil {
@@ -2768,4 +2835,358 @@ func (x *Exec) builtin(s *State, f *Frame, in *ssa.Call, name string, args []Val
 	}
 	x.problem("unmodelled builtin %s", name)
 	return Top{}
+}
+
+// isStepType: a function, or a structure made of functions only (a row of a table of predicates and constructors).
+func isStepType(t types.Type) bool {
+	if _, isFn := t.Underlying().(*types.Signature); isFn {
+		return true
+	}
+	st, ok := t.Underlying().(*types.Struct)
+	if !ok || st.NumFields() == 0 {
+		return false
+	}
+	for i := 0; i < st.NumFields(); i++ {
+		if _, isFn := st.Field(i).Type().Underlying().(*types.Signature); !isFn {
+			return false
+		}
+	}
+	return true
+}
+
+// initLiteral describes an unexported package variable of slice type that is given a composite literal of steps
+// (isStepType) in its package initialiser and is written nowhere else, neither as a whole nor element by element:
+// the instructions of the initialiser that build it, ending with the store into the variable.
+func (x *Exec) initLiteral(g *ssa.Global) []ssa.Instruction {
+	if x.initLits == nil {
+		x.initLits = map[*ssa.Global][]ssa.Instruction{}
+	}
+	if l, ok := x.initLits[g]; ok {
+		return l
+	}
+	x.initLits[g] = nil
+	if g.Pkg == nil || g.Object() == nil || g.Object().Exported() {
+		return nil
+	}
+	sl, ok := g.Type().(*types.Pointer).Elem().Underlying().(*types.Slice)
+	if !ok || !isStepType(sl.Elem()) {
+		return nil
+	}
+	var fns []*ssa.Function
+	var collect func(fn *ssa.Function)
+	collect = func(fn *ssa.Function) {
+		fns = append(fns, fn)
+		for _, a := range fn.AnonFuncs {
+			collect(a)
+		}
+	}
+	for _, m := range g.Pkg.Members {
+		switch m := m.(type) {
+		case *ssa.Function:
+			collect(m)
+		case *ssa.Type:
+			for _, t := range []types.Type{m.Type(), types.NewPointer(m.Type())} {
+				ms := g.Pkg.Prog.MethodSets.MethodSet(t)
+				for i := 0; i < ms.Len(); i++ {
+					if fn := g.Pkg.Prog.MethodValue(ms.At(i)); fn != nil && fn.Pkg == g.Pkg {
+						collect(fn)
+					}
+				}
+			}
+		}
+	}
+	// readOnly: everything done with v (a value loaded from the variable) only reads
+	var readOnly func(v ssa.Value, depth int) bool
+	readOnly = func(v ssa.Value, depth int) bool {
+		if depth > 6 || v.Referrers() == nil {
+			return false
+		}
+		for _, r := range *v.Referrers() {
+			switch r := r.(type) {
+			case *ssa.DebugRef:
+			case *ssa.IndexAddr, *ssa.FieldAddr, *ssa.Phi, *ssa.Field, *ssa.Index:
+				if !readOnly(r.(ssa.Value), depth+1) {
+					return false
+				}
+			case *ssa.Slice:
+				if r.X != v || !readOnly(r, depth+1) {
+					return false
+				}
+			case *ssa.UnOp:
+				if r.Op != token.MUL {
+					return false
+				}
+				// a loaded row (a function or a structure of functions) is a copy: nothing done with it changes the table
+			case *ssa.Call:
+				b, isB := r.Call.Value.(*ssa.Builtin)
+				if isB && (b.Name() == "len" || b.Name() == "cap") {
+					continue
+				}
+				// calling a function taken from the table
+				if r.Call.Value == v {
+					for _, a := range r.Call.Args {
+						if a == v {
+							return false
+						}
+					}
+					continue
+				}
+				return false
+			case *ssa.BinOp, *ssa.If:
+			default:
+				return false
+			}
+		}
+		return true
+	}
+	var st *ssa.Store
+	for _, fn := range fns {
+		for _, b := range fn.Blocks {
+			for _, in := range b.Instrs {
+				switch in := in.(type) {
+				case *ssa.Store:
+					if in.Addr == ssa.Value(g) {
+						if st != nil || fn.Name() != "init" || fn.Parent() != nil {
+							return nil
+						}
+						st = in
+					} else if in.Val == ssa.Value(g) {
+						return nil
+					}
+				case *ssa.UnOp:
+					if in.X == ssa.Value(g) && !readOnly(in, 0) {
+						return nil
+					}
+				default:
+					for _, op := range in.Operands(nil) {
+						if *op == ssa.Value(g) {
+							return nil // the address of the variable goes somewhere
+						}
+					}
+				}
+			}
+		}
+	}
+	if st == nil {
+		return nil
+	}
+	// the instructions of the same block that build the stored value
+	need := map[ssa.Value]bool{}
+	var mark func(v ssa.Value, depth int) bool
+	mark = func(v ssa.Value, depth int) bool {
+		if depth > 8 {
+			return false
+		}
+		switch v := v.(type) {
+		case *ssa.Const, *ssa.Function, *ssa.Global, nil:
+			return true
+		case *ssa.Slice:
+			need[v] = true
+			return v.Low == nil && v.Max == nil && mark(v.X, depth+1)
+		case *ssa.Alloc:
+			if need[v] {
+				return true
+			}
+			need[v] = true
+			for _, r := range *v.Referrers() {
+				switch r := r.(type) {
+				case *ssa.IndexAddr, *ssa.FieldAddr:
+					if !mark(r.(ssa.Value), depth+1) {
+						return false
+					}
+				case *ssa.Store:
+					if r.Addr != ssa.Value(v) || !mark(r.Val, depth+1) {
+						return false
+					}
+				case *ssa.Slice, *ssa.UnOp, *ssa.DebugRef:
+				default:
+					return false
+				}
+			}
+			return true
+		case *ssa.IndexAddr:
+			if need[v] {
+				return true
+			}
+			need[v] = true
+			if _, isC := v.Index.(*ssa.Const); !isC {
+				return false
+			}
+			for _, r := range *v.Referrers() {
+				switch r := r.(type) {
+				case *ssa.FieldAddr:
+					if !mark(r, depth+1) {
+						return false
+					}
+				case *ssa.Store:
+					if r.Addr != ssa.Value(v) || !mark(r.Val, depth+1) {
+						return false
+					}
+				case *ssa.DebugRef:
+				default:
+					return false
+				}
+			}
+			return mark(v.X, depth+1)
+		case *ssa.FieldAddr:
+			if need[v] {
+				return true
+			}
+			need[v] = true
+			for _, r := range *v.Referrers() {
+				switch r := r.(type) {
+				case *ssa.Store:
+					if r.Addr != ssa.Value(v) || !mark(r.Val, depth+1) {
+						return false
+					}
+				case *ssa.DebugRef:
+				default:
+					return false
+				}
+			}
+			return mark(v.X, depth+1)
+		case *ssa.MakeClosure:
+			need[v] = true
+			return len(v.Bindings) == 0
+		case *ssa.ChangeType:
+			need[v] = true
+			return mark(v.X, depth+1)
+		}
+		return false
+	}
+	if !mark(st.Val, 0) {
+		return nil
+	}
+	var out []ssa.Instruction
+	for _, in := range st.Block().Instrs {
+		if in == ssa.Instruction(st) {
+			out = append(out, in)
+			break
+		}
+		if v, ok := in.(ssa.Value); ok && need[v] {
+			out = append(out, in)
+			continue
+		}
+		if s2, ok := in.(*ssa.Store); ok {
+			if a, ok := s2.Addr.(ssa.Value); ok && need[a] {
+				out = append(out, in)
+			}
+		}
+	}
+	for v := range need {
+		if in, ok := v.(ssa.Instruction); ok && in.Block() != st.Block() {
+			return nil
+		}
+	}
+	x.initLits[g] = out
+	return out
+}
+
+// materialise builds, in the state at hand, the table a package variable was given by its initialiser (initLiteral),
+// so that a walk over it meets its rows one by one.
+func (x *Exec) materialise(s *State, g *ssa.Global) {
+	if _, ok := s.Heap["G:"+g.String()]; ok {
+		return
+	}
+	ins := x.initLiteral(g)
+	if len(ins) == 0 {
+		return
+	}
+	hooks := x.Hooks
+	x.Hooks = Hooks{}
+	tmp := &Frame{Fn: ins[0].Parent(), Env: map[ssa.Value]Value{}, Ctx: "init", Visits: map[int]int{}, PhiOld: map[ssa.Value]string{}, Loops: map[int]*loopSnap{}}
+	for _, in := range ins {
+		x.step(s, tmp, in)
+	}
+	x.Hooks = hooks
+}
+
+// againstLiterals: the orderings of v against the integer literal k (bit 0 "<", bit 1 "=", bit 2 ">"; told from the
+// literal's side when litFirst) that the comparisons of v with other integer literals recorded on this path leave
+// possible. v is an integer; a length or position is also known not to be negative.
+func (x *Exec) againstLiterals(s *State, v Value, k int64, litFirst bool) uint16 {
+	const inf = int64(1) << 40
+	lo, hi := -inf, inf
+	if x.nonNeg(s, v) {
+		lo = 0
+	}
+	holes := map[int64]bool{}
+	vk := v.Key()
+	for name, mask := range s.PC {
+		if !strings.HasPrefix(name, "ord(") || !strings.HasSuffix(name, ")") {
+			continue
+		}
+		inner := name[len("ord(") : len(name)-1]
+		var lit string
+		first := false // the literal is the first operand of that atom
+		switch {
+		case strings.HasPrefix(inner, vk+",c:"):
+			lit = inner[len(vk)+len(",c:"):]
+		case strings.HasSuffix(inner, ","+vk) && strings.HasPrefix(inner, "c:"):
+			lit, first = inner[len("c:"):len(inner)-len(vk)-1], true
+		default:
+			continue
+		}
+		n, err := strconv.ParseInt(lit, 10, 64)
+		if err != nil {
+			continue
+		}
+		lt, eq, gt := mask&1 != 0, mask&2 != 0, mask&4 != 0 // of the atom's first operand against its second
+		if first {
+			lt, gt = gt, lt // now of v against n
+		}
+		if !lt && lo < n {
+			lo = n
+		}
+		if !gt && hi > n {
+			hi = n
+		}
+		if !eq {
+			holes[n] = true
+		}
+	}
+	for holes[lo] && lo <= hi {
+		lo++
+	}
+	for holes[hi] && lo <= hi {
+		hi--
+	}
+	var out uint16
+	if lo <= hi {
+		if lo < k {
+			out |= 1
+		}
+		if hi > k {
+			out |= 4
+		}
+		if lo <= k && k <= hi && !holes[k] {
+			out |= 2
+		}
+	}
+	if out == 0 {
+		return 7 // contradictory facts: leave the question open rather than cut the path
+	}
+	if litFirst {
+		sw := out & 2
+		if out&1 != 0 {
+			sw |= 4
+		}
+		if out&4 != 0 {
+			sw |= 1
+		}
+		out = sw
+	}
+	return out
+}
+
+// CanBeZero: whether the integer value v may be 0 on the path of s, given the comparisons of v with integer literals
+// recorded so far.
+func (x *Exec) CanBeZero(s *State, v Value) bool {
+	if c, ok := v.(Const); ok {
+		if c.V == nil || c.V.Kind() != constant.Int {
+			return true
+		}
+		return constant.Sign(c.V) == 0
+	}
+	return x.againstLiterals(s, v, 0, false)&2 != 0
 }
